@@ -564,7 +564,7 @@ def _make_json_serializable(value):
             for k, v in value.items()
         }
 
-    elif isinstance(value, list):
+    elif isinstance(value, (list, tuple)):
         json_value = [
             _make_json_serializable(v)
             for v in value
